@@ -434,6 +434,10 @@ func (p *cparser) primary() CExpr {
 			return &CBool{true}
 		case "false":
 			return &CBool{false}
+		case "forall", "exists":
+			// a quantifier in operand position extends as far to the right as possible
+			p.pos--
+			return p.expr()
 		}
 		name := t.text
 		// qualified function name pkg.F( is handled as CSel then call? keep simple:
